@@ -41,6 +41,10 @@ CLAIMED = {
          "Template lists are finite; non-numeric variable values take one representative each."),
  "C18": ("§6 C18", "SCOPED: on each tree the real parser produces for a text of the edit corpus (prefixes, token deletions/duplications, bracket edits, hand-written broken texts) CheckSource, GetSymbols, HoverOn and GotoDefinition run in the VM with the cursor position SYMBOLIC (every line/character) and the checker's map iteration orders symbolic: every reachable panic site is a violation, diagnostics start inside the document and do not end before they start, re-analysis yields the same diagnostics and symbols.",
          "The text dimension is a bounded corpus (text -> partial tree is ANTLR error recovery, outside the encoding); positions and iteration orders are quantified by the solver."),
+ "C19": ("§6 C19", "lsp.Handle executed in the VM: ONE request (didOpen / didChange with 1-2 content changes / hover / definition / documentSymbol / other) from an ARBITRARY state satisfying the invariant 'each stored document = (latest text, analysis of it)' over 2 URIs x 3 texts, addressed to any of 3 URIs, cursor position symbolic: invariant preserved, only the addressed entry changes, exactly one publishDiagnostics with the fresh analysis of the last content change, query responses equal those of a fresh server that saw only the latest text. Navigation: at EVERY position inside a variable use hover names it and its type and definition is its declaration; builtin names show the function; elsewhere nothing.",
+         "One inductive step covers histories of any length given the invariant. Texts from a 3-text alphabet; JSON and message framing are stubs/outside."),
+ "C20": ("§6 C20", "SCOPED to the command functions: cmd.check on corpus files (exit status 1 exactly when an error-severity diagnostic exists; every diagnostic's position and message printed) and cmd.run through --raw, --stdin and file flags in JSON mode on symbolic balances and amounts (stdout is exactly the JSON of the library's result; on a library error exit 1 with the message), with os/fmt/json/io replaced by environment stubs in the VM; native replay uses real files, stdin and a child process.",
+         "The process itself (cobra parsing, main's wrapper, the real exit status) is OUTSIDE. check() involves no symbolic numbers: there the solver only confirms path feasibility; run() quantifies over balances and amounts."),
 }
 
 NA = {}
